@@ -256,7 +256,7 @@ def read_run(ops, outs):
             if o != "ok":
                 return None, []
             cfg = {"fb": int(kvget(f, "fb", "0")), "rec": int(kvget(f, "rec", "0")), "cp": int(kvget(f, "cp", "0")),
-                   "px": kvget(f, "px", "bad")}
+                   "px": kvget(f, "px", "bad"), "qs": [float(x) for x in (kvget(f, "qs", "") or "").split(",") if x]}
             continue
         if f[0] == "at":
             now = max(now, int(f[1]))
@@ -286,6 +286,12 @@ def read_run(ops, outs):
             u = kvget(st, "until")
             e.until = int(u) if u and u.lstrip("-").isdigit() else None
             rest = [x for x in st[1:] if not x.startswith("until=")]
+            # the monitors judge what the implementation reported: when the q= on the op line is not what the metrics
+            # report (a shrunk or hand-edited scenario; model and implementation then diverge visibly) use the latter
+            om = kvget(rest, "oracle-mismatch")
+            if om is not None:
+                e.orc = [int(x) for x in om.split(",") if x.lstrip("-").isdigit()]
+                rest = [x for x in rest if not x.startswith("oracle-mismatch=")]
             e.extra = " ".join(rest)
         elif f[0] in ("start", "finish", "state"):
             e.extra = "unreadable:" + o
@@ -397,8 +403,26 @@ def monitor_c12(ops, outs):
     return bad
 
 
-def evaluations(cfg, evs, expr, ties=None):
-    """every completion with: is it an evaluation instant, the window of codes since the last trip, the verdict"""
+def has_lat_eq(e):
+    if e[0] == "cmp":
+        return e[2][0] == "lat" and e[1] in ("eq", "neq")
+    return e[0] != "bad" and (has_lat_eq(e[1]) or has_lat_eq(e[2]))
+
+
+def verdict_over(expr, window, bounds):
+    """the condition over every latency value the hdr buckets allow; None when they do not all agree"""
+    if all(lo == hi for lo, hi in bounds):
+        return eval_expr(expr, window, [lo for lo, _ in bounds])
+    if has_lat_eq(expr) or len(bounds) > 6:
+        return None
+    import itertools
+    vs = set(eval_expr(expr, window, list(c)) for c in itertools.product(*[(lo, hi) for lo, hi in bounds]))
+    return vs.pop() if len(vs) == 1 else None
+
+
+def evaluations(cfg, evs, expr, ties=None, lat=None):
+    """every completion with: is it an evaluation instant, the window of codes since the last trip, the verdict
+    (lat: per line the independently derived latency bounds; without it the oracle on the op line is used)"""
     next_check = None
     log = []        # (t, code) since the last observed trip
     for e in evs:
@@ -413,10 +437,62 @@ def evaluations(cfg, evs, expr, ties=None):
                 slot = e.t // SLOT
                 window = [c for (u, c) in log if u // SLOT > slot - WINDOW_SLOTS]
                 verdict = eval_expr(expr, window, e.orc, ties)
+                if lat and lat.get(e.idx):
+                    v2 = verdict_over(expr, window, lat[e.idx])
+                    if v2 is not None:
+                        verdict = v2
         tripped = e.after == "tripped" and e.before != "tripped"
         yield e, is_eval, verdict, tripped
         if tripped:
             log = []
+
+
+HIST_BUCKETS = 6            # memmetrics: histBuckets
+HIST_PERIOD = 10 * S        # memmetrics: histPeriod
+HDR_SUB = 8                 # hdrhistogram with 2 significant figures: 256 sub-buckets, unit 1 us
+HDR_LIMIT = 1 << 32         # first value (us) a 1 us .. 3.6e9 us histogram cannot index
+
+
+def hdr_range(v):
+    """the values hdrhistogram (2 significant figures) cannot tell from v: [lowest, highest] equivalent"""
+    b = max(0, v.bit_length() - HDR_SUB)
+    lo = (v >> b) << b
+    return lo, lo + (1 << b) - 1
+
+
+def latency_bounds(cfg, evs):
+    """for every completion: per quantile literal the interval (in ms) LatencyAtQuantileMS may report, derived from the
+    raw (time, latency) log alone: the latencies recorded since the last trip that are still in the rolling
+    histogram (6 sub-histograms, a new one at the first record 10 s or more after the previous roll), the order
+    statistic hdrhistogram picks (count = int(q/100*n + 0.5)), and the hdr bucket of that value"""
+    started = {}
+    buckets = [[] for _ in range(HIST_BUCKETS)]
+    idx, last_roll = 0, None
+    for e in evs:
+        if e.kind == "start" and e.out.split()[0] == "pass":
+            started[e.id] = e.t
+        if e.kind != "finish":
+            continue
+        lat_us = (e.t - started.pop(e.id, e.t)) // 1000
+        if last_roll is None or e.t - last_roll >= HIST_PERIOD:
+            idx = (idx + 1) % HIST_BUCKETS
+            buckets[idx] = []
+            last_roll = e.t
+        if lat_us < HDR_LIMIT:
+            buckets[idx].append(lat_us)
+        vals = sorted(v for b in buckets for v in b)
+        bounds = []
+        for q in cfg["qs"]:
+            k = int(((min(q, 100.0) / 100) * float(len(vals))) + 0.5)
+            if k == 0 or not vals:
+                bounds.append((0, 0))
+            else:
+                lo, hi = hdr_range(vals[min(k, len(vals)) - 1])
+                bounds.append((lo // 1000, hi // 1000))
+        yield e, bounds
+        if e.after == "tripped" and e.before != "tripped":
+            buckets = [[] for _ in range(HIST_BUCKETS)]
+            idx, last_roll = 0, e.t
 
 
 def monitor_c18(ops, outs):
@@ -425,14 +501,21 @@ def monitor_c18(ops, outs):
     if cfg is None:
         return bad
     expr = parse_px(cfg["px"])
-    for e, is_eval, verdict, tripped in evaluations(cfg, evs, expr):
-        if "oracle-mismatch" in e.out:
-            bad.append("oracle: line %d the latency oracle on the op line is not what the metrics report: %s" % (e.idx, e.out))
+    # latency quantiles are re-derived from the raw (time, latency) log: those of the responses since the last trip
+    lat = {e.idx: b for e, b in latency_bounds(cfg, evs)}
+    for e, is_eval, verdict, tripped in evaluations(cfg, evs, expr, lat=lat):
         if tripped and not is_eval:
             bad.append("trip-off-schedule: line %d tripped at t=%d although no evaluation is due before the check period has passed" % (e.idx, e.t))
         elif is_eval and verdict is not None and tripped != verdict:
             bad.append("trip-iff: line %d at t=%d the condition is %s on the responses recorded since the last trip, but the breaker %s"
                        % (e.idx, e.t, verdict, "tripped" if tripped else "did not trip"))
+        if is_eval and e.before != "tripped":
+            for i, (lo, hi) in enumerate(lat.get(e.idx, [])):
+                if i < len(e.orc) and not lo <= e.orc[i] <= hi:
+                    bad.append("stale-latency: line %d at t=%d the condition is evaluated with LatencyAtQuantileMS(%s) = %d ms, but over the latencies "
+                               "recorded since the last trip that are still in the rolling window it lies in [%d, %d] ms"
+                               % (e.idx, e.t, cfg["qs"][i], e.orc[i], lo, hi))
+                    break
         if len(bad) > 5:
             return bad
     # side effects: once per transition
@@ -454,6 +537,11 @@ def monitor_c18(ops, outs):
 
 # ------------------------------------------------------------------------------------------ generator
 DURS = [MS, 2 ** 20, 5 * MS, 2 ** 23, 100 * MS, 2 ** 27, S, 2 ** 30, 3 * S, 10 * S, 2 ** 33, 60 * S, 2 ** 36, 3600 * S]
+DAY = 86400 * S
+YEAR = 365 * DAY
+# days .. decades; at most 140 years so that start + 2*rec stays below 2^63 ns (time.Duration ends at 292 years)
+LONG_DURS = [DAY, 7 * DAY, 2 ** 47, 30 * DAY, 2 ** 52, YEAR, 2 ** 55, 3 * YEAR, 10 * YEAR, 2 ** 59, 25 * YEAR, 2 ** 60, 50 * YEAR,
+             2 ** 61, 100 * YEAR, 140 * YEAR]
 CPS = [0, MS, 10 * MS, 100 * MS, 100 * MS, 100 * MS, S, 2 ** 30, 10 * S]
 GOOD = [200, 200, 200, 201, 204, 301, 404]
 BADC = [502, 504, 502, 504, 500, 503, 599]
@@ -550,7 +638,7 @@ class Builder:
         """recovery: arrivals on a grid of the recovery period, then its end"""
         r = self.rng
         rec = self.rec
-        u0 = t + self.fb + r.choice([0, 0, 1, self.fb // 7, rec // 3])
+        u0 = t + self.fb + r.choice([0, 0, 1, self.fb // 7, rec // 3 if rec < DAY else 1000])
         self.goto(u0)
         u0 = self.now
         g = r.choice([4, 8, 16, 64])
@@ -576,7 +664,7 @@ class Builder:
         self.goto(u0 + rec)
         if r.random() < 0.7:
             self.probe(mood)
-        self.adv(r.choice([1, 1, 2, MS, rec // 2 + 1]))
+        self.adv(r.choice([1, 1, 2, MS, rec // 2 + 1 if rec < DAY else S]))
         self.probe("good", hold=0)
         self.probe("good")
         self.lines.append("effects")
@@ -587,8 +675,63 @@ class Builder:
                 self.finish(i, self.code("good"))
 
 
+def latency_cycle(rng):
+    """slow responses spread over several 10 s histogram slots before the trip, then a complete cycle with fast
+    responses and evaluations while the old slots are still inside the 60 s rolling window"""
+    q = lit_f(rng.choice([("50.0", 500, 10), ("90.0", 900, 10), ("99.0", 990, 10), ("99.9", 999, 10), ("100.0", 1000, 10), ("75.5", 755, 10)]))
+    expr = ("cmp", rng.choice(["gt", "ge"]), ("lat", q), lit_i(rng.choice([50, 100, 250])))
+    k = rng.random()
+    if k < 0.3:
+        expr = ("or", expr, ("cmp", "gt", ("ner",), lit_f(("0.9", 9, 10))))
+    elif k < 0.5:
+        expr = ("and", ("cmp", "le", ("ner",), lit_f(("0.5", 5, 10))), expr)
+    cp = rng.choice([20 * S, 25 * S, 30 * S, 35 * S])
+    fb, rec = rng.choice([S, 2 * S, 2 ** 30, 3 * S]), rng.choice([S, 2 * S, 2 ** 30, 3 * S])
+    b = Builder(rng, fb, rec, cp, expr)
+    fast = lambda: rng.choice([MS, 2 * MS, 5 * MS, 10 * MS])
+    slow = lambda: rng.choice([300 * MS, 500 * MS, 640 * MS, 800 * MS, 1234 * MS])
+
+    def serve(lat, code=200):
+        i = b.start()
+        b.adv(lat)
+        b.finish(i, code)
+    serve(fast())                                  # first completion: evaluated, schedules the next check at cp
+    t = rng.choice([5, 8, 11]) * S
+    while t < cp - 2 * S:                          # slow history over >= 3 slots, no evaluation due yet
+        b.goto(t)
+        for _ in range(rng.randint(1, 4)):
+            serve(slow())
+        t += rng.choice([5, 10, 11, 12]) * S
+    b.goto(cp + rng.choice([1, MS, S]))
+    serve(slow())                                  # due: trips on the slow history
+    b.lines.append("state")
+    t0 = b.now
+    b.goto(t0 + fb + rng.choice([0, 1, MS]))
+    b.probe("good", hold=0)                        # recovery starts
+    b.goto(b.now + rec + rng.choice([1, MS, S]))
+    for _ in range(rng.randint(1, 3)):             # standby again: fast responses only
+        serve(fast())
+    b.goto(max(b.now, t0 + cp) + rng.choice([1, MS, S]))
+    for _ in range(rng.randint(1, 3)):             # the next evaluation is due: must not trip on a healthy backend
+        serve(fast())
+    b.lines += ["state", "effects"]
+    if rng.random() < 0.5:                         # and on through the rest of the window
+        b.goto(b.now + rng.choice([5, 10, 20, 40]) * S)
+        for _ in range(rng.randint(1, 4)):
+            serve(rng.choice([fast(), fast(), slow()]))
+            b.adv(rng.choice([0, S, 10 * S]))
+        b.lines += ["state", "effects"]
+    return b.lines
+
+
 def raw_scenario(rng, focus):
+    if rng.random() < (0.15 if focus == "C18" else 0.05):
+        return latency_cycle(rng)
     fb, rec, cp = rng.choice(DURS), rng.choice(DURS), rng.choice(CPS)
+    long_rec = rng.random() < (0.2 if focus == "C12" else 0.08)
+    if long_rec:
+        # one cycle only and a short fallback period: the whole scenario must stay below 2^63 ns after hx.Base
+        fb, rec = rng.choice(DURS[:10]), rng.choice(LONG_DURS)
     if rng.random() < 0.02:
         fb = 0
     if rng.random() < 0.02:
@@ -605,9 +748,11 @@ def raw_scenario(rng, focus):
         b.traffic(rng.randint(2, 6), "mixed")
         return b.lines
     cycles = rng.randint(1, 4 if focus != "C05" else 3)
+    if long_rec:
+        cycles = 1
     for _ in range(cycles):
         kind = rng.random()
-        if focus == "C05" and kind < 0.35:
+        if focus == "C05" and kind < 0.35 and not long_rec:
             # long random walk with time steps scaled to the three durations
             for _ in range(rng.randint(20, 80)):
                 b.adv(rng.choice([0, 0, 1, cp // 2, cp + 1, fb // 3, fb - 1 if fb else 0, fb, fb + 1, rec // 5, rec, rec + 1, MS, S]))
